@@ -22,6 +22,10 @@ Section TyInd.
   Hypothesis HUnion : forall ts, Forall P ts -> P (TUnion ts).
   Hypothesis HClass : forall c, P (TClass c).
   Hypothesis HNamed : forall asd names ts ds, Forall P ts -> P (TNamed asd names ts ds).
+  Hypothesis HLeaf : forall tp fmt pat, P (TLeaf tp fmt pat).
+  Hypothesis HEnum : forall lit vals, P (TEnum lit vals).
+  Hypothesis HTyped : forall names ts req, Forall P ts -> P (TTyped names ts req).
+  Hypothesis HOpaque : forall n, P (TOpaque n).
   Fixpoint ty_ind' (t: ty) : P t :=
     match t with
     | TInt => HInt | TFloat => HFloat | TBool => HBool | TStr => HStr | TNone => HNone | TAny => HAny
@@ -36,6 +40,11 @@ Section TyInd.
     | TClass c => HClass c
     | TNamed asd names ts ds => HNamed asd names ts ds ((fix go (l: list ty) : Forall P l :=
                                  match l with [] => Forall_nil _ | x :: r => Forall_cons _ (ty_ind' x) (go r) end) ts)
+    | TLeaf tp fmt pat => HLeaf tp fmt pat
+    | TEnum lit vals => HEnum lit vals
+    | TTyped names ts req => HTyped names ts req ((fix go (l: list ty) : Forall P l :=
+                                 match l with [] => Forall_nil _ | x :: r => Forall_cons _ (ty_ind' x) (go r) end) ts)
+    | TOpaque n => HOpaque n
     end.
 End TyInd.
 
@@ -90,6 +99,23 @@ Section Unfold.
          | SFuel => SFuel | SErr => SErr end
     else SErr.
   Proof. destruct fuel; reflexivity. Qed.
+  Lemma sf_leaf fuel tp fmt pat st :
+    SF fuel (TLeaf tp fmt pat) st =
+    if is_type_name tp && match fmt with Some f => str_mem f formats | None => true end
+    then SOk (leaf_sk tp fmt pat, st) else SErr.
+  Proof. destruct fuel; reflexivity. Qed.
+  Lemma sf_opaque fuel n st : SF fuel (TOpaque n) st = SErr.
+  Proof. destruct fuel; reflexivity. Qed.
+  Lemma sf_enum fuel lit vals st : SF fuel (TEnum lit vals) st = SOk (enum_sk lit vals, st).
+  Proof. destruct fuel; reflexivity. Qed.
+  Lemma sf_typed fuel names ts req st :
+    SF fuel (TTyped names ts req) st =
+    if str_nodup names && Nat.eqb (List.length names) (List.length ts)
+    then match map_st (SF fuel) ts [] st with
+         | SOk (ss, st1) => SOk (obj_sk None (combine names ss) (isort (req_keys names req)), st1)
+         | SFuel => SFuel | SErr => SErr end
+    else SErr.
+  Proof. destruct fuel; reflexivity. Qed.
   Lemma sf_class0 c st : SF 0 (TClass c) st = SFuel.
   Proof. reflexivity. Qed.
   Lemma sf_classS fuel c st :
@@ -99,7 +125,7 @@ Section Unfold.
     | Some fs =>
         match fields_fold (SF fuel) fs [] [] st with
         | SOk ((props, req), st1) =>
-            let obj := obj_sk c props req in
+            let obj := obj_sk (Some c) props req in
             if cfg.(c_all_refs)
             then SOk (ref_sk (cfg.(c_prefix) ++ "/" ++ c), aset st1 c (render obj))
             else SOk (obj, st1)
@@ -157,6 +183,37 @@ Proof.
   - exact (IH H2).
 Qed.
 
+Lemma req_keys_in names req x : In x (req_keys names req) -> In x names.
+Proof.
+  revert req. induction names as [|n ns IH]; intros [|[] rs] H; simpl in *; try contradiction.
+  - destruct H as [H|H]; [left; exact H|right; eapply IH; eauto].
+  - right; eapply IH; eauto.
+Qed.
+Lemma req_keys_nodup names req : NoDup names -> NoDup (req_keys names req).
+Proof.
+  intros H. revert req. induction H as [|n ns Hn Hns IH]; intros [|[] rs]; simpl; try constructor; auto.
+  intros Hin. apply Hn. eapply req_keys_in; eauto.
+Qed.
+Lemma insert_in x y l : In y (insert_str x l) <-> y = x \/ In y l.
+Proof.
+  induction l as [|z r IH]; simpl; [intuition|].
+  destruct (String.leb x z); simpl; [intuition|]. rewrite IH. intuition.
+Qed.
+Lemma insert_nodup x l : ~ In x l -> NoDup l -> NoDup (insert_str x l).
+Proof.
+  induction l as [|z r IH]; simpl; intros Hx Hn; [constructor; [tauto|constructor]|].
+  destruct (String.leb x z); [constructor; [simpl; tauto|exact Hn]|].
+  inversion Hn; subst. constructor.
+  - rewrite insert_in. intros [->|H]; tauto.
+  - apply IH; tauto.
+Qed.
+Lemma isort_in y l : In y (isort l) <-> In y l.
+Proof. induction l as [|x r IH]; simpl; [tauto|]. rewrite insert_in, IH. intuition. Qed.
+Lemma isort_nodup l : NoDup l -> NoDup (isort l).
+Proof.
+  induction 1 as [|x r Hx Hr IH]; simpl; [constructor|]. apply insert_nodup; [rewrite isort_in; exact Hx|exact IH].
+Qed.
+
 (* ------------------------------------------------------------------ *)
 (* a generic invariant: any document predicate G (relative to the keys of the definitions
    collected so far) that is closed under the constructors of the model holds for every
@@ -169,35 +226,44 @@ Section Generic.
   Variable cfg: bcfg.
   Variable G : list string -> js -> Prop.
   Hypothesis G_mono : forall ks ks' d, incl ks ks' -> G ks d -> G ks' d.
-  Hypothesis G_ty : forall ks n, is_type_name n = true -> G ks (render (ty_sk n)).
-  Hypothesis G_any : forall ks, G ks (render sk0).
-  Hypothesis G_arr : forall ks o u, (forall d, o = Some d -> G ks d) -> G ks (render (arr_sk o u)).
-  Hypothesis G_dict : forall ks o, (forall d, o = Some d -> G ks d) -> G ks (render (dict_sk o)).
-  Hypothesis G_tuple : forall ks l, Forall (G ks) l -> G ks (render (tuple_sk l)).
-  Hypothesis G_union : forall ks l, l <> [] -> Forall (G ks) l -> G ks (render (union_sk l)).
-  Hypothesis G_ref : forall ks c, In c ks -> G ks (render (ref_sk (cfg.(c_prefix) ++ "/" ++ c))).
+  (* Sp: the same property on schema OBJECTS (before rendering); Sp := fun ks s => G ks (render s) is always possible,
+     a structural Sp lets an instance look inside the object when a keyword is set afterwards *)
+  Variable Sp : list string -> sk -> Prop.
+  Hypothesis S_G : forall ks s, Sp ks s -> G ks (render s).
+  Hypothesis S_mono : forall ks ks' s, incl ks ks' -> Sp ks s -> Sp ks' s.
+  Hypothesis G_ty : forall ks n, is_type_name n = true -> Sp ks (ty_sk n).
+  Hypothesis G_any : forall ks, Sp ks sk0.
+  Hypothesis G_arr : forall ks o u, (forall d, o = Some d -> G ks d) -> Sp ks (arr_sk o u).
+  Hypothesis G_dict : forall ks o, (forall d, o = Some d -> G ks d) -> Sp ks (dict_sk o).
+  Hypothesis G_tuple : forall ks l, Forall (G ks) l -> Sp ks (tuple_sk l).
+  Hypothesis G_union : forall ks l, l <> [] -> Forall (G ks) l -> Sp ks (union_sk l).
+  Hypothesis G_ref : forall ks c, In c ks -> Sp ks (ref_sk (cfg.(c_prefix) ++ "/" ++ c)).
   Hypothesis G_obj : forall ks c props req,
-      (forall k d, In (k, d) props -> G ks d) -> NoDup req -> G ks (render (obj_sk c props req)).
+      (forall k d, In (k, d) props -> G ks d) -> NoDup req -> Sp ks (obj_sk c props req).
+  Hypothesis G_leaf : forall ks tp fmt pat,
+      is_type_name tp = true -> match fmt with Some f => str_mem f formats | None => true end = true -> Sp ks (leaf_sk tp fmt pat).
+  Hypothesis G_enum : forall ks lit vals, Sp ks (enum_sk lit vals).
+  Hypothesis G_descr : forall ks s d, Sp ks s -> Sp ks (set_description s d).
   Hypothesis G_ntobj : forall ks props req,
-      (forall k d, In (k, d) props -> G ks d) -> NoDup req -> G ks (render (ntobj_sk props req)).
-  Hypothesis G_default : forall ks s d, G ks (render s) -> G ks (render (set_default s d)).
+      (forall k d, In (k, d) props -> G ks d) -> NoDup req -> Sp ks (ntobj_sk props req).
+  Hypothesis G_default : forall ks s d, Sp ks s -> Sp ks (set_default s d).
   Hypothesis G_defs : forall ks s st,
-      G ks (render s) -> (forall c d, In (c, d) st -> G ks d) -> G ks (render (set_defs s st)).
-  Hypothesis G_schema : forall ks s u, G ks (render s) -> G ks (render (set_schema s u)).
+      Sp ks s -> (forall c d, In (c, d) st -> G ks d) -> Sp ks (set_defs s st).
+  Hypothesis G_schema : forall ks s u, Sp ks s -> Sp ks (set_schema s u).
   Hypothesis Hnodup : tab_nodup E.
 
   Definition Inv (st: defs) : Prop := forall c d, In (c, d) st -> G (keys st) d.
 
   Definition rec_ok (rec: ty -> defs -> sres (sk * defs)) : Prop :=
     forall t st s st', rec t st = SOk (s, st') -> Inv st ->
-                       Inv st' /\ G (keys st') (render s) /\ incl (keys st) (keys st').
+                       Inv st' /\ Sp (keys st') s /\ incl (keys st) (keys st').
 
   Lemma or_none_ok ks a s : G ks (render s) -> forall d, or_none a s = Some d -> G ks d.
   Proof. unfold or_none. destruct (is_any a); intros H d Hd; inversion Hd; subst; exact H. Qed.
 
   Lemma map_st_ok rec ts :
     Forall (fun t => forall st s st', rec t st = SOk (s, st') -> Inv st ->
-                                      Inv st' /\ G (keys st') (render s) /\ incl (keys st) (keys st')) ts ->
+                                      Inv st' /\ Sp (keys st') s /\ incl (keys st) (keys st')) ts ->
     forall ds st ss st', map_st rec ts ds st = SOk (ss, st') -> Inv st ->
                       Inv st' /\ Forall (G (keys st')) ss /\ incl (keys st) (keys st') /\ List.length ss = List.length ts.
   Proof.
@@ -209,7 +275,7 @@ Section Generic.
       destruct (Ht _ _ _ E1 HI) as (HI1 & HG1 & Hk1).
       destruct (IH _ _ _ _ E2 HI1) as (HI2 & HF2 & Hk2 & Hlen).
       repeat split; auto.
-      + constructor; auto. eapply G_mono; eauto.
+      + constructor; auto. apply S_G. apply G_default. eapply S_mono; eauto.
       + eapply incl_tran; eauto.
       + simpl. rewrite Hlen. reflexivity.
   Qed.
@@ -228,7 +294,7 @@ Section Generic.
       apply IH in Hf; auto.
       + destruct Hf as (HI2 & Hp2 & Hn2 & Hk2). repeat split; auto. eapply incl_tran; eauto.
       + intros k d Hin. apply in_aset in Hin. destruct Hin as [[_ Hd]|Hin].
-        * subst d. apply G_default. exact HG1.
+        * subst d. apply S_G. apply G_descr. apply G_default. exact HG1.
         * eapply G_mono; [exact Hk1|]. eapply Hp; eauto.
       + destruct (f_req f).
         * rewrite <- app_assoc. simpl. exact Hnd.
@@ -252,14 +318,14 @@ Section Generic.
              inversion Hs; subst; repeat split; auto using incl_refl; apply G_ty; reflexivity).
       + rewrite sf_list in Hs. destruct (schema_fuel E cfg 0 t st) as [[s1 st1]| |] eqn:E1; try discriminate.
         inversion Hs; subst. destruct (IHt _ _ _ E1 HI) as (A & B & C). repeat split; auto.
-        apply G_arr. apply or_none_ok. exact B.
+        apply G_arr. apply or_none_ok. apply S_G. exact B.
       + rewrite sf_wrap in Hs. exact (IHt _ _ _ Hs HI).
       + rewrite sf_set in Hs. destruct (schema_fuel E cfg 0 t st) as [[s1 st1]| |] eqn:E1; try discriminate.
         inversion Hs; subst. destruct (IHt _ _ _ E1 HI) as (A & B & C). repeat split; auto.
-        apply G_arr. apply or_none_ok. exact B.
+        apply G_arr. apply or_none_ok. apply S_G. exact B.
       + rewrite sf_dict in Hs. destruct (schema_fuel E cfg 0 t st) as [[s1 st1]| |] eqn:E1; try discriminate.
         inversion Hs; subst. destruct (IHt _ _ _ E1 HI) as (A & B & C). repeat split; auto.
-        apply G_dict. apply or_none_ok. exact B.
+        apply G_dict. apply or_none_ok. apply S_G. exact B.
       + rewrite sf_tuple in Hs. destruct (map_st (schema_fuel E cfg 0) ts [] st) as [[ss st1]| |] eqn:E1; try discriminate.
         inversion Hs; subst. destruct (map_st_ok _ _ H _ _ _ _ E1 HI) as (A & B & C & _). repeat split; auto.
       + rewrite sf_union in Hs. destruct ts as [|t0 tr]; try discriminate.
@@ -276,20 +342,33 @@ Section Generic.
         * apply G_ntobj; [|apply str_nodup_true; exact Eg1].
           intros k d Hin. apply in_combine_r in Hin. rewrite Forall_forall in B. apply B. exact Hin.
         * unfold ntuple_sk. destruct ss as [|x r]; [apply G_arr; intros d Hd; discriminate|apply G_tuple; exact B].
+      + rewrite sf_leaf in Hs.
+        destruct (is_type_name tp && match fmt with Some f => str_mem f formats | None => true end) eqn:Eg; try discriminate.
+        apply andb_true_iff in Eg. destruct Eg as [Eg1 Eg2].
+        inversion Hs; subst. repeat split; auto using incl_refl.
+      + rewrite sf_enum in Hs. inversion Hs; subst. repeat split; auto using incl_refl.
+      + rewrite sf_typed in Hs.
+        destruct (str_nodup names && Nat.eqb (List.length names) (List.length ts)) eqn:Eg; try discriminate.
+        destruct (map_st (schema_fuel E cfg 0) ts [] st) as [[ss st1]| |] eqn:E1; try discriminate.
+        inversion Hs; subst. destruct (map_st_ok _ _ H _ _ _ _ E1 HI) as (A & B & C & D). repeat split; auto.
+        apply andb_true_iff in Eg. destruct Eg as [Eg1 Eg2].
+        apply G_obj; [|apply isort_nodup; apply req_keys_nodup; apply str_nodup_true; exact Eg1].
+        intros k d Hin. apply in_combine_r in Hin. rewrite Forall_forall in B. apply B. exact Hin.
+      + rewrite sf_opaque in Hs. discriminate.
     - intros t. induction t using ty_ind'; intros st s st' Hs HI;
         try (destruct (sf_scalar E cfg (S fuel) st) as (H1 & H2 & H3 & H4 & H5 & H6);
              first [rewrite H1 in Hs | rewrite H2 in Hs | rewrite H3 in Hs | rewrite H4 in Hs | rewrite H5 in Hs | rewrite H6 in Hs];
              inversion Hs; subst; repeat split; auto using incl_refl; apply G_ty; reflexivity).
       + rewrite sf_list in Hs. destruct (schema_fuel E cfg (S fuel) t st) as [[s1 st1]| |] eqn:E1; try discriminate.
         inversion Hs; subst. destruct (IHt _ _ _ E1 HI) as (A & B & C). repeat split; auto.
-        apply G_arr. apply or_none_ok. exact B.
+        apply G_arr. apply or_none_ok. apply S_G. exact B.
       + rewrite sf_wrap in Hs. exact (IHt _ _ _ Hs HI).
       + rewrite sf_set in Hs. destruct (schema_fuel E cfg (S fuel) t st) as [[s1 st1]| |] eqn:E1; try discriminate.
         inversion Hs; subst. destruct (IHt _ _ _ E1 HI) as (A & B & C). repeat split; auto.
-        apply G_arr. apply or_none_ok. exact B.
+        apply G_arr. apply or_none_ok. apply S_G. exact B.
       + rewrite sf_dict in Hs. destruct (schema_fuel E cfg (S fuel) t st) as [[s1 st1]| |] eqn:E1; try discriminate.
         inversion Hs; subst. destruct (IHt _ _ _ E1 HI) as (A & B & C). repeat split; auto.
-        apply G_dict. apply or_none_ok. exact B.
+        apply G_dict. apply or_none_ok. apply S_G. exact B.
       + rewrite sf_tuple in Hs. destruct (map_st (schema_fuel E cfg (S fuel)) ts [] st) as [[ss st1]| |] eqn:E1; try discriminate.
         inversion Hs; subst. destruct (map_st_ok _ _ H _ _ _ _ E1 HI) as (A & B & C & _). repeat split; auto.
       + rewrite sf_union in Hs. destruct ts as [|t0 tr]; try discriminate.
@@ -300,7 +379,8 @@ Section Generic.
         destruct (fields_fold (schema_fuel E cfg fuel) fs [] [] st) as [[[props req] st1]| |] eqn:Ef; try discriminate.
         apply (fields_ok _ IHf) in Ef; auto.
         * destruct Ef as (A & B & C & D).
-          assert (HGo: G (keys st1) (render (obj_sk c props req))) by (apply G_obj; auto).
+          assert (HSo: Sp (keys st1) (obj_sk (Some c) props req)) by (apply G_obj; auto).
+          assert (HGo: G (keys st1) (render (obj_sk (Some c) props req))) by (apply S_G; exact HSo).
           cbv zeta in Hs. destruct (c_all_refs cfg).
           -- inversion Hs; subst. repeat split.
              ++ apply inv_aset; auto.
@@ -318,6 +398,19 @@ Section Generic.
         * apply G_ntobj; [|apply str_nodup_true; exact Eg1].
           intros k d Hin. apply in_combine_r in Hin. rewrite Forall_forall in B. apply B. exact Hin.
         * unfold ntuple_sk. destruct ss as [|x r]; [apply G_arr; intros d Hd; discriminate|apply G_tuple; exact B].
+      + rewrite sf_leaf in Hs.
+        destruct (is_type_name tp && match fmt with Some f => str_mem f formats | None => true end) eqn:Eg; try discriminate.
+        apply andb_true_iff in Eg. destruct Eg as [Eg1 Eg2].
+        inversion Hs; subst. repeat split; auto using incl_refl.
+      + rewrite sf_enum in Hs. inversion Hs; subst. repeat split; auto using incl_refl.
+      + rewrite sf_typed in Hs.
+        destruct (str_nodup names && Nat.eqb (List.length names) (List.length ts)) eqn:Eg; try discriminate.
+        destruct (map_st (schema_fuel E cfg (S fuel)) ts [] st) as [[ss st1]| |] eqn:E1; try discriminate.
+        inversion Hs; subst. destruct (map_st_ok _ _ H _ _ _ _ E1 HI) as (A & B & C & D). repeat split; auto.
+        apply andb_true_iff in Eg. destruct Eg as [Eg1 Eg2].
+        apply G_obj; [|apply isort_nodup; apply req_keys_nodup; apply str_nodup_true; exact Eg1].
+        intros k d Hin. apply in_combine_r in Hin. rewrite Forall_forall in B. apply B. exact Hin.
+      + rewrite sf_opaque in Hs. discriminate.
   Qed.
 
   Theorem build_inv fuel wd uri t st d st' :
@@ -328,10 +421,10 @@ Section Generic.
     destruct (schema_fuel E cfg fuel t st) as [[s st1]| |] eqn:E1; try discriminate.
     inversion Hb; subst. destruct (schema_inv _ _ _ _ _ E1 HI) as (A & B & C).
     repeat split; auto.
-    assert (B1: G (keys st') (render match uri with Some u => set_schema s u | None => s end))
+    assert (B1: Sp (keys st') match uri with Some u => set_schema s u | None => s end)
       by (destruct uri; auto).
-    destruct wd; auto. destruct st' as [|p r] eqn:Est; auto.
-    all: try (rewrite <- Est in *; apply G_defs; auto).
+    destruct wd; [|apply S_G; exact B1]. destruct st' as [|p r] eqn:Est; [apply S_G; exact B1|].
+    rewrite <- Est in *. apply S_G. apply G_defs; auto.
   Qed.
 
   (* every output of a sequence of builds on one context, and every definition collected,
